@@ -88,27 +88,32 @@ def api_init_graph(res, rng, metric, kind, wide=False):
             return
 
 
-def api_good_init(res, rng, metric):
+def api_good_init(res, rng, metric, sparse=False, p=None):
     """a GOOD supplied graph (exact k-NN) with a few unknown (-1) entries, one of them in row 0, and no refinement: whatever the
     construction does, no supplied neighbour may be lost (random initialisation cannot rediscover them)"""
     from scipy.spatial.distance import cdist
     n, dim, k = 200, 10, 6
     X = rng.standard_normal((n, dim)).astype(np.float32)
-    D = cdist(X.astype(np.float64), X.astype(np.float64), {"euclidean": "euclidean", "manhattan": "cityblock"}[metric])
+    if sparse:
+        X = (X * (rng.random((n, dim)) < 0.7)).astype(np.float32); X[~X.any(axis=1), 0] = 1.0
+    D = cdist(X.astype(np.float64), X.astype(np.float64), {"euclidean": "euclidean", "manhattan": "cityblock", "minkowski": "minkowski"}[metric],
+              **({"p": p} if p else {}))
     G = np.argsort(D, axis=1)[:, :k].astype(np.int32)
     G[0, int(rng.integers(1, k))] = -1
     for r_ in rng.integers(1, n, 5):
         G[int(r_), int(rng.integers(1, k))] = -1
-    idx = NNDescent(X, metric=metric, n_neighbors=k, random_state=int(rng.integers(10 ** 6)), init_graph=G, n_iters=0)
+    import scipy.sparse as sp_
+    idx = NNDescent(sp_.csr_matrix(X) if sparse else X, metric=metric, metric_kwds=({"p": p} if p else None), n_neighbors=k,
+                    random_state=int(rng.integers(10 ** 6)), init_graph=G, n_iters=0)
     inds, dists = idx.neighbor_graph
-    case = {"metric": metric, "n": n, "k": k, "init": "exact k-NN with a -1 hole in row 0", "n_iters": 0}
-    res.case(("good-init", metric, X.tobytes()[:64]), True, sample=case); res.count("api_good_init"); res.traces += 1
+    case = {"metric": metric, "sparse": sparse, "p": p, "n": n, "k": k, "init": "exact k-NN with a -1 hole in row 0", "n_iters": 0}
+    res.case(("good-init", metric, sparse, X.tobytes()[:64]), True, sample=case); res.count("api_good_init"); res.traces += 1
     for i in range(n):
         before = sorted(float(D[i, q]) for q in G[i] if q >= 0)
         after = sorted(float(d) for d, q in zip(dists[i], inds[i]) if q >= 0)
         w = rank_worse(before, after, tol=2e-5, metric=metric)
         if w:
-            res.violation("rank:init_graph:dense32:%s" % metric, "exact initial graph with holes: row %d rank %d: %r supplied, %r in the result"
+            res.violation("rank:init_graph:%s:%s" % ("csr" if sparse else "dense32", metric), "exact initial graph with holes: row %d rank %d: %r supplied, %r in the result"
                           % (i, w[0], w[1], w[2]), case)
             return
 
@@ -195,6 +200,7 @@ def run(res, tier, seed, search):
     for r in range(2 if tier == "quick" else 6):
         api_init_graph(res, rng, "dot", "dense32", wide=(r == 0))
     api_init_graph(res, rng, "minkowski", "csr")          # metric arguments must reach the seeding of a CSR index too
+    api_good_init(res, rng, "minkowski", sparse=True, p=3.0)
     api_good_init(res, rng, "euclidean")
     if tier != "quick":
         api_good_init(res, rng, "manhattan")
